@@ -34,6 +34,10 @@ CONSTANTS StreamDef,   \* sequence of body sizes (cells) of the records of this 
           H,           \* header cells (5)
           MaxHeld, MaxDup, MaxSeg,
           AllowGap, AllowWrap,   \* enable the KF_* deviations
+          AllowOverlap,          \* environment: a retransmission may start INSIDE an already captured segment (other packetization, or a
+                                 \* keep-alive probe re-sending the last byte).  Duplicate suppression is by starting sequence number only, so
+                                 \* the code takes it as new data: the direction stalls.  C05 quantifies over EXACT duplicates: documented
+                                 \* deviation outside the property, TLC shows which contract clause it breaks.
           AllowMidGap,           \* environment: a segment may be captured ahead of the head of ITS OWN record (buffer anchored mid-record)
           BogusOver,             \* data: the 16-bit "length" the code reads from mid-record bytes exceeds all that the direction still sends
                                  \* (the common case for ciphertext; the concretizer checks the actual bytes).  FALSE: it may fit.
@@ -104,9 +108,10 @@ WrapIn(b) == \E x, y \in b : x.st < y.st /\ Key(x) > Key(y)
 Ahead(sg)  == Key(sg) \notin seen /\ MinSt(buf \cup {sg}) # NextOff            \* buffer not anchored at the next expected byte
 IsMidGap(sg) == Ahead(sg) /\ BogusOver /\ MinSt(buf \cup {sg}) \notin Bounds    \* ... anchored mid-record and the bogus length overshoots: code waits
 IsGap(sg)  == Ahead(sg) /\ ~IsMidGap(sg)
+IsOverlap(sg) == Key(sg) \notin seen /\ \E c \in captured : c.st < sg.st /\ sg.st < c.st + c.ln
 IsWrap(sg) == Key(sg) \notin seen /\ WrapIn(buf \cup {sg})
-Kind(sg) == IF IsGap(sg) THEN "gap" ELSE IF IsWrap(sg) THEN "wrap" ELSE IF IsMidGap(sg) THEN "midgap" ELSE "ok"
-Allowed(sg) == (AllowGap \/ ~IsGap(sg)) /\ (AllowWrap \/ ~IsWrap(sg)) /\ (AllowMidGap \/ ~IsMidGap(sg))
+Kind(sg) == IF IsOverlap(sg) THEN "overlap" ELSE IF IsGap(sg) THEN "gap" ELSE IF IsWrap(sg) THEN "wrap" ELSE IF IsMidGap(sg) THEN "midgap" ELSE "ok"
+Allowed(sg) == IsOverlap(sg) \/ ((AllowGap \/ ~IsGap(sg)) /\ (AllowWrap \/ ~IsWrap(sg)) /\ (AllowMidGap \/ ~IsMidGap(sg)))
 
 Capture(sg, isdup) ==
   /\ Allowed(sg)
@@ -142,7 +147,12 @@ DupCoalesced == /\ dups < MaxDup
                 /\ \E a, b \in captured : a.st + a.ln = b.st /\ a.ln + b.ln <= 2 * MaxSeg
                       /\ Capture(Seg(a.st, a.ln + b.ln), TRUE) /\ dups' = dups + 1 /\ UNCHANGED <<isn, sent, held>>
 
-Next == SendInOrder \/ Hold \/ ReleaseHeld \/ Dup \/ DupCoalesced
+\* a retransmission of the tail of an already captured segment (starts inside it)
+PartialRetransmit == /\ AllowOverlap /\ dups < MaxDup
+           /\ \E a \in captured : a.ln >= 2 /\ \E k \in 1..(a.ln - 1) :
+                 /\ Capture(Seg(a.st + k, a.ln - k), TRUE) /\ dups' = dups + 1 /\ UNCHANGED <<isn, sent, held>>
+
+Next == SendInOrder \/ Hold \/ ReleaseHeld \/ Dup \/ DupCoalesced \/ PartialRetransmit
 Spec == Init /\ [][Next]_vars
 
 (* ---------------- contract (what any correct reassembler guarantees) ---------------- *)
